@@ -13,7 +13,7 @@ RULE = ("gross_range_test: dyadic fail span (either order, list/tuple, degenerat
         "(equal, touching, degenerate, absent) or outside it (must raise ValueError); data drawn on, one grid step "
         "beside and far from all four bounds plus missing. valid_range_test: float64 arrays with float bounds and "
         "datetime64[s|ms|us|ns] arrays with datetime64/datetime bounds, each bound possibly absent (None/NaN/NaT), all 4 "
-        "inclusivity settings. oracle = literal interval membership. non-trivial: >=1 present value exactly equal to a "
+        "inclusivity settings, missing values as NaN/NaT or as masked elements hiding NaN / an in-span / a far out-of-span value. oracle = literal interval membership. non-trivial: >=1 present value exactly equal to a "
         "bound (or, for the rejection sub-check, every case). plus an exhaustive sweep over integer-grid spans")
 ASSUMPTIONS = [
     "valid_range_test is given ndarrays whose dtype matches the bounds (docstring precondition); lower bound <= upper",
@@ -150,7 +150,9 @@ def valid_case(draw, tier="quick"):
     return {"kind": kind, "x": xs, "lo": lo_c, "hi": hi_c, "si": draw(st.booleans()), "ei": draw(st.booleans()),
             "unit": draw(st.sampled_from(UNITS)), "absent_as": draw(st.sampled_from(["none", "nan"])),
             "bound_type": draw(st.sampled_from(["np", "py"])), "span_kind": draw(st.sampled_from(["list", "tuple"])),
-            "defaults": draw(st.integers(0, 3)) == 0}
+            "defaults": draw(st.integers(0, 3)) == 0,
+            # missing values as NaN/NaT, or as masked elements hiding NaN or a finite value (inside or far outside the span)
+            "mask_carrier": draw(st.sampled_from(["none", "none", "nan", "junk_out", "junk_in"]))}
 
 
 def _valid_inputs(case):
@@ -173,6 +175,19 @@ def _valid_inputs(case):
             if case["bound_type"] == "py":
                 return dtm.datetime(1970, 1, 1) + dtm.timedelta(seconds=int(v))
             return np.datetime64(int(v), "s").astype(f"datetime64[{unit}]")
+    mc = case.get("mask_carrier", "none")
+    if mc != "none":
+        mask = np.array([v is None for v in case["x"]], dtype=bool)
+        if mc != "nan" and mask.any():
+            lo, hi = case["lo"], case["hi"]
+            ref = lo if lo is not None else (hi if hi is not None else 0)
+            inside = ref if (lo is not None and (hi is None or hi > lo)) else ref
+            junk = (ref - 1000) if mc == "junk_out" else inside
+            if case["kind"] == "float":
+                a = np.where(mask, float(junk), a)
+            else:
+                a = np.where(mask, np.datetime64(int(junk), "s").astype(a.dtype), a)
+        a = np.ma.MaskedArray(a, mask=mask)
     span = [bnd(case["lo"]), bnd(case["hi"])]
     return a, _span(span, case["span_kind"])
 
@@ -188,6 +203,8 @@ def check_valid(case, rec):
         labels.append("on_bound")
     if lo is None or hi is None:
         labels.append("bound_absent")
+    if case.get("mask_carrier", "none") != "none" and any(v is None for v in x):
+        labels.append("masked_" + case["mask_carrier"])
     rec.note(on, labels)
     a, span = _valid_inputs(case)
     kw = {} if case.get("defaults") else {"start_inclusive": si, "end_inclusive": ei}
